@@ -3,20 +3,7 @@
 import json, os
 ROOT = os.path.dirname(os.path.abspath(__file__))
 props = [json.loads(l) for l in open(os.path.join(ROOT, "properties.jsonl"))]
-CLAIMED = {
- "C01": dict(engine="resolver", ref="6 C01/C02/C03",
-   text="TLC model-checks the implementation-shaped resolve (stable sort by by_priority, fold of FinalFeedback.merge, finalize) against the declarative contract ShownIsBest/DefaultIffNone on every report of bounded universes (pairs over 7-13 categories x 7-12 priorities x muted, triples over a reduced product, suppression sets <= 2 over all five suppression forms); every exported report is rebuilt through the real Feedback API (keyword style and generated subclasses) and resolved by simple.resolve and full.resolve, and thousands of random API histories over the full attribute product are validated as traces by TLC against the contract.",
-   note="Trusted: TLC, the TLA+ contract of the documented rank order, the concretiser/projector in bind/resolver.py. Bounded universes; unknown priority strings, delayed-condition groups and suppress('correct') are outside the generated space.",
-   technique="TLA+ spec + TLC exhaustive model checking, spec->code replay of every exported state, code->spec batch trace validation"),
- "C02": dict(engine="resolver", ref="6 C01/C02/C03",
-   text="Same machinery as C01 with the CorrectIff / NoCorrectWithVisibleNegative invariants: TLC checks the fold's conjunction against the declarative contract over all pairs/triples of correct in {True,False,None} x eligibility class x category (incl. 'complete') x suppression; every exported case is replayed on the real resolvers; random histories are trace-validated.",
-   note="Trusted: as C01. hide_correctness / suppress('correct') not generated.",
-   technique="TLA+ spec + TLC exhaustive model checking, spec->code replay, trace validation"),
- "C03": dict(engine="resolver", ref="6 C01/C02/C03",
-   text="Same machinery as C01 with the ScoreIs invariant in integer centi-points: valence x triggered x muted x unscored x suppressed x score forms ('+N','-N','N%', ints, floats) over all pairs (triples on a reduced product); replay compares round(score*100); random histories with arbitrary documented score forms are trace-validated.",
-   note="Trusted: as C01. Score strings outside the documented forms are not generated; scores are chosen so that the sum is exact at two decimals.",
-   technique="TLA+ spec + TLC exhaustive model checking, spec->code replay, trace validation"),
-}
+CLAIMED = json.load(open(os.path.join(ROOT, "manifest_claims.json")))
 PENDING = "machinery for this property is not built yet in this revision (planned in DESIGN.md section 6); it will move to checks when its TLA+ specification and binding are committed"
 man = {
  "version": 1,
@@ -24,7 +11,9 @@ man = {
  "hooks": {"guard": "PEDAL_EDU_PEDAL_VERIF", "enable": "checks set PEDAL_EDU_PEDAL_VERIF=1 in their own process environment and import pedal from /repo's working tree (pure Python, no build step)",
            "baseline_off_cmd": "cd /repo && env -u PEDAL_EDU_PEDAL_VERIF /venv/bin/python -m pytest -ra -q -p no:cacheprovider --timeout=900 --continue-on-collection-errors",
            "source_commits": [], "add_only": True},
- "engines": [{"name": "resolver", "path": "specs/Resolver.tla + checks/resolver.py + bind/resolver.py", "serves_properties": ["C01", "C02", "C03"],
+ "engines": [{"name": "lifecycle", "path": "specs/Lifecycle.tla + checks/lifecycle.py + bind/lifecycle.py", "serves_properties": ["C20"], "kind_free_text": "TLA+ spec checked by TLC; behaviour export replay"},
+             {"name": "sandbox", "path": "specs/Sandbox.tla + checks/sandbox.py + bind/sandbox.py", "serves_properties": ["C04", "C05", "C15"], "kind_free_text": "TLA+ spec checked by TLC; behaviour export replay"},
+             {"name": "resolver", "path": "specs/Resolver.tla + checks/resolver.py + bind/resolver.py", "serves_properties": ["C01", "C02", "C03"],
               "kind_free_text": "TLA+ spec checked by TLC; export replay and batch trace validation"}],
  "checks": [], "not_applicable": [],
  "notes": "All checks: ./check <id> --tier quick|thorough ; replay: ./check <id> --replay <file>. Exit 2 = machinery error.",
